@@ -43,7 +43,10 @@ Step(e) ==
 
 \* --- the verdict: against A only, evaluated in the state BEFORE the step ---
 AOk(e) ==
-  CASE e.ev = "emit" /\ e.k # "probe" -> e.got = AGot(e.t, e.c)
+  \* an emission made by a collector from inside its own callback: delivered like any other, or discarded (named deviation
+  \* ReentrantDiscarded: the slow path hands a re-entrant lookup the no-op collector) - never to somebody else
+  CASE e.ev = "emit" /\ e.k # "probe" /\ "reentrant" \in DOMAIN e -> e.got \in {NoD, AGot(e.t, e.c)}
+    [] e.ev = "emit" /\ e.k # "probe" /\ ~("reentrant" \in DOMAIN e) -> e.got = AGot(e.t, e.c)
     [] e.ev = "emit" /\ e.k = "probe"  -> TRUE      \* enabled! delivers nothing; its value is mechanism (drift)
     [] e.ev = "set_global"             -> e.ok = (global = NoD)
     [] e.ev = "panic_scopes"           -> e.panicked
@@ -52,7 +55,7 @@ AOk(e) ==
     [] OTHER                           -> TRUE
 \* --- mechanism agreement (drift only) ---
 MOk(e) ==
-  /\ (e.ev = "emit" /\ e.k # "probe" => e.got = MGot(e.t, e.c))
+  /\ (e.ev = "emit" /\ e.k # "probe" /\ ~("reentrant" \in DOMAIN e) => e.got = MGot(e.t, e.c))
   /\ (e.ev = "emit" /\ e.k = "probe" => e.ret = (MPasses(e.t, e.c) /\ MCur(e.t) # NoD /\ Enabled(filt[MCur(e.t)], flag[MCur(e.t)], e.c)))   \* enabled! asks the current collector once more
   /\ (e.ev \notin {"reset", "crash"} => maxLevel' = e.ml)
 
